@@ -60,6 +60,12 @@ def concatMapE {α : Type} (f : α → Except Err Bytes) : List α → Except Er
       | .ok bs => .ok (b ++ bs)
       | .error e => .error e
 
+/-- one map entry: key as string, then the value. -/
+def encEntryWith (f : Value → Except Err Bytes) (kv : Bytes × Value) : Except Err Bytes :=
+  match f kv.2 with
+  | .ok b => .ok (encBytes kv.1 ++ b)
+  | .error e => .error e
+
 /-- the record arm: iterate over the *schema's* fields, looking each value up by name/alias. -/
 def encodeFieldsWith (f : Schema → Value → Except Err Bytes) :
     List (FieldMeta × Schema) → List (Bytes × Value) → Except Err Bytes
@@ -160,7 +166,7 @@ def encode (env : Names) : Nat → Schema → Value → Except Err Bytes
       match s with
       | .map inner =>
         if es.isEmpty then .ok [0]
-        else match concatMapE (fun (kv : Bytes × Value) => match encode env fuel inner kv.2 with | .ok b => .ok (encBytes kv.1 ++ b) | .error e => .error e) es with
+        else match concatMapE (encEntryWith (encode env fuel inner)) es with
           | .ok b => .ok (encLong es.length ++ b ++ [0])
           | .error e => .error e
       | _ => .error .mismatch
